@@ -15,7 +15,7 @@ pub struct C07P;
 pub static C07: C07P = C07P;
 
 fn n_for(t: Tier) -> usize {
-    t.pick(4, 6)
+    t.pick(5, 7)
 }
 
 #[derive(Default)]
